@@ -455,7 +455,19 @@ def rec_rules(chk, ctx):
                      if isinstance(x, ast.Subscript) and isinstance(x.value, ast.Name) and x.value.id == "schedule"
                      and isinstance(x.slice, ast.Tuple) and len(x.slice.elts) == 3}
             if reads:
-                chk.decide("C16.REC", f"mixed.{TAB}#assert[{k_a}]", True if key in reads else False,
+                # an entry the candidate does not read: definitely unset only if it lies at or beyond the entry being
+                # computed in the fill order (slot row s_i ascending outside, n_i ascending inside); an earlier entry is
+                # filled and the assert never fires (behaviour unchanged)
+                verdict = True if key in reads else None
+                if verdict is None:
+                    pa, pb_ = (pbq.poly(e) for e in st_.test.left.slice.elts[:2])
+                    db = padd(pb_, patom("s"), -1)
+                    da = padd(pa, patom("n"), -1)
+                    cb = db.get((), 0) if set(db) <= {()} else None
+                    ca = da.get((), 0) if set(da) <= {()} else None
+                    if cb is not None and (cb > 0 or (cb == 0 and ca is not None and ca >= 0)):
+                        verdict = False
+                chk.decide("C16.REC", f"mixed.{TAB}#assert[{k_a}]", verdict,
                            f"`{ast.unparse(st_.test)}` " + ("asserts on an entry the next candidate reads" if key in reads else
                            f"asserts on an entry the recurrence does not read ({ast.unparse(nxt.value)[:80]}): it may be unset or out of "
                            "range, the tabulated planner raises where the memoised one returns"), rel=REL, node=st_, nontrivial=False)
